@@ -1,5 +1,3 @@
-//go:build !vsreal
-
 // Package c12: closing a connection / manager / server at any moment completes,
 // closes the transport exactly once, fails every pending and later call, cancels
 // active stream contexts and leaves no library goroutine behind.
